@@ -1704,8 +1704,9 @@ func representable(name string, live []string) bool {
 // A deadline alone is no verdict on a loaded machine: two goroutine dumps are taken 3 s apart; if handler goroutines
 // of the emulator are blocked (not running, not in I/O) in the same state and stack in both, the request is reported
 // by the caller as unanswered (a violation of whatever the caller was checking: every request of these properties must
-// be answered); otherwise the run ends INCONCLUSIVE at once.
-func hangConfirm(run *common.Run, desc string) {
+// be answered); otherwise the request is waited for again (a suspended or overloaded machine resumes and answers), and
+// only after three periods without an answer and without a blocked handler the run ends INCONCLUSIVE.
+func hangConfirm(run *common.Run, desc string, period int) bool {
 	snapshot := func() map[string]string {
 		buf := make([]byte, 16<<20)
 		buf = buf[:runtime.Stack(buf, true)]
@@ -1738,9 +1739,14 @@ func hangConfirm(run *common.Run, desc string) {
 	run.Count("unanswered_requests_examined_with_goroutine_dumps", 1)
 	if blocked > 0 {
 		run.Count("unanswered_requests_with_blocked_emulator_handlers", 1)
-		return
+		return true
+	}
+	if period < 2 {
+		run.Count("watchdog_expiries_with_no_blocked_handler", 1)
+		return false // wait for the answer for another period
 	}
 	run.Blind(fmt.Sprintf("a request got no answer within its watchdog but no handler of the emulator in this process is blocked (slow machine?): %s", desc))
 	run.Finish()
 	os.Exit(4)
+	return true
 }
